@@ -75,6 +75,13 @@ pub fn curated_bodies() -> Vec<String> {
         "<html><body><script><!-- x --></script><div>y</div><script>a<b</script></body></html>".into(),
         // a document saved as "UTF-8 with BOM", inline SVG with a <title> and a <style> of its own
         "\u{feff}<html><body><svg><title>s</title><style>p{}</style><path d=\"M0 0\"/></svg><div>x</div></body></html>".into(),
+        // processing instructions / bogus comments that contain a tag of the filters' paths before their first '>'
+        "<?php echo \"<div>\"; ?><html><body><div>x</div></body></html>".into(),
+        "<html><body></ bogus <div> ><div>y</div><?x <body> ?></body></html>".into(),
+        // raw-text elements whose end tags are not lower case
+        "<HTML><HEAD><TITLE>T</TITLE><Script>a<b</Script></HEAD><BODY><TextArea>t</TEXTAREA><div>x</div></BODY></HTML>".into(),
+        // <plaintext> inside a buffered target: everything after it is text, to the end of the stream
+        "<html><body><div><p class=z>q</p><plaintext>rest <b>of</b> the </div> document".into(),
         // end tags that close nothing inside a buffered target (explicitly closed void element, stray </p>)
         "<html><head><link rel=\"a\"></link><title>T</title></head><body><div><br></br>x</p>y<p class=z>q</p></div></body></html>".into(),
     ]
@@ -112,6 +119,9 @@ pub fn filter_lists() -> Vec<(&'static str, Vec<FilterSpec>)> {
         ("replace[title]", vec![FilterSpec::html("replace", &["title"], None, S1)]),
         ("append[textarea]sel(p)", vec![FilterSpec::html("append_child", &["textarea"], Some("p"), S1)]),
         ("replace[html,head,title]", vec![FilterSpec::html("replace", &["html", "head", "title"], None, S1)]),
+        // a selector the engine cannot parse (it matches nothing; the filter must not fail half-way through a chunk)
+        ("append[div]sel(unparsable)", vec![FilterSpec::html("append_child", &["div"], Some("meta[property=og:title]"), S1)]),
+        ("replace[div]sel(unparsable)+append[html,body]", vec![FilterSpec::html("replace", &["div"], Some("p:visited::before"), S1), FilterSpec::html("append_child", &["html", "body"], None, S2)]),
     ]
 }
 
